@@ -377,3 +377,43 @@ Proof. vm_compute. repeat split; reflexivity. Qed.
 Print Assumptions C02_run_records.
 Print Assumptions C02_run_records_trimmed.
 Print Assumptions C02_run_record_text.
+
+(* ==================================================================================================================================
+   APPENDED: THE WHOLE PROGRAM (model/Program.v: program_files cl ref_rows qry_rows = the data lines of every XMAP file from the rows of the two
+   CMAP files and the command line; proofs/ProgramProofs3.v).  Hypotheses on the inputs only (cmdline_ok, cmap_ok: see props/C07.v).
+   For the k-th data line (0-based) of every file: it is the line of the k-th row w handed to that file (rows_of_file o sfx: main, _1, _2 of the
+   run's outputs o), and either
+     run_record refs q0s w (w is the record of one candidate of either pass: C02_run_records) and record_text_ok refs q0s k w line:
+       for a reference molecule and a query molecule AS READ from the two files, split_on TAB line = spec_fields (k + 1) reference q0 strand pairs conf runs rest
+       — XmapEntryID k + 1, both ids, QryStartPos/QryEndPos/RefStartPos/RefEndPos as label positions of these molecules (query offsets from its first
+       label; swapped and from its last label on '-'), QryLen = last - first + 1 bp, RefLen = the reference's end marker truncated, Alignment = the pairs,
+       which are a valid matching of labels of the two molecules; Confidence, HitEnum and AlignedRest are the row's (C04, C03);
+   or (main file, modes best / joined / all) w is a JOINED row: AlignmentResultRow.resolve of two such records (C02_joined; open findings F7/F10). *)
+Require Import Wiring Program CmapProofs ProgramProofs1 ProgramProofs2 ProgramProofs3.
+Require ProgramExamples.
+
+Theorem C02_program_records cl rr qr files : cmdline_ok cl -> cmap_ok (cl_rids cl) rr -> cmap_ok (cl_qids cl) qr ->
+  program_files cl rr qr = Ok files ->
+  exists refs q0s o,
+    cmap_read rr (cl_rids cl) = Ok refs /\ cmap_read qr (cl_qids cl) = Ok q0s /\ program_outputs cl rr qr = Ok o /\
+    forall sfx lines k line, In (sfx, lines) files -> nth_error lines k = Some line ->
+      exists rows w, rows_of_file o sfx = Some rows /\ nth_error rows k = Some w /\
+        ((run_record refs q0s w /\ record_text_ok refs q0s k w line) \/
+         (sfx = ""%string /\ cl_mode cl <> Separate /\ exists a b, run_record refs q0s a /\ run_record refs q0s b /\ join_rows a b = Ok w)).
+Proof. exact (fun H1 H2 H3 => program_records cl rr qr H1 H2 H3 files). Qed.
+
+(* non-vacuity: the run of proofs/ProgramExamples.v, mode `separate`: the second line of the main file is spec_fields of entry number 2, the
+   reference molecule 1 and the query molecule 7 as the reader returns them (the query NOT trimmed: its first label at 30234.5 bp), strand '+',
+   the listed pairs, confidence 9020.00 = 180400 / 20, the HitEnum runs, AlignedRest False *)
+Example C02_program_nonvacuous :
+  cmdline_ok (ProgramExamples.px_cl Separate) /\ cmap_ok [] ProgramExamples.px_rr /\ cmap_ok [] ProgramExamples.px_qr /\
+  match cmap_read ProgramExamples.px_rr [], cmap_read ProgramExamples.px_qr [], program_files (ProgramExamples.px_cl Separate) ProgramExamples.px_rr ProgramExamples.px_qr return Prop with
+  | Ok [reference], Ok [q3; q7], Ok [(_, [_; line]); _] =>
+      hd 0 (mpositions q7) = 302345 /\
+      split_on TAB line = spec_fields 2 reference q7 false [(3,1);(4,2);(5,3);(6,4);(7,5);(8,6);(9,7);(10,8);(11,10);(12,12)] 180400
+                                      [(8%nat, Cigar.M); (1%nat, Cigar.I); (1%nat, Cigar.M); (1%nat, Cigar.I); (1%nat, Cigar.M)] false
+  | _, _, _ => False
+  end.
+Proof. split; [apply ProgramExamples.px_cl_ok|]. split; [exact (proj1 ProgramExamples.px_files_ok)|]. split; [exact (proj2 ProgramExamples.px_files_ok)|].
+  vm_compute. split; reflexivity. Qed.
+Print Assumptions C02_program_records.
